@@ -5,8 +5,8 @@
    udp/server/server.go on every run.
 
    Reading guide.  A history h is any list of events
-     Recv t | Pong g t | PongCb g | Tick t sendok | Dgram t sendok
-   (Model.ev); [run c (init t0) h] is the list of (event, what the monitor did).
+     Recv t | Pong g t | PongCb g | Tick t sendok | Dgram t sendok | Frag t
+   (Model.ev; Frag t = bytes that complete no message arrive on a stream connection); [run c (init t0) h] is the list of (event, what the monitor did).
    [wf c]: maxRetries is a uint32 other than 2^32-1.  [rx_ordered t0 h]: the
    arrival times of messages do not go backwards (monotonic clock); ticks may
    carry any time.  For an item at position |pre| of the trace, [rev pre] is the
@@ -15,7 +15,9 @@
    times of all messages received so far.  [tick_time]: t for Tick t, and
    t + lookahead for the datagram path of the udp server. *)
 From Coq Require Import ZArith List Bool.
-From GoCoap Require Import Gen.MonitorTiming Monitor.Model Monitor.Spec Monitor.Proofs.
+From GoCoap Require Import Gen.MonitorTiming Gen.StreamConsts Monitor.Model Monitor.Spec Monitor.Proofs.
+From GoCoap Require Import Monitor.StreamModel Monitor.StreamProofs.
+From GoCoap Require Stream.Spec Stream.Proofs.
 Import ListNotations.
 Open Scope Z_scope.
 
@@ -107,6 +109,86 @@ Print Assumptions C18_late_pong.
 Theorem C18_late_pong_no_reset : forall older g o, g <> cur_gen older -> is_reset older (PongCb g, o) = false.
 Proof. exact late_pong_no_reset. Qed.
 Print Assumptions C18_late_pong_no_reset.
+
+(* ---- stream connections (TCP/TLS), byte level ---------------------------------
+   The peer's messages [fs] are encoded per RFC 8323 (Stream.Spec.encode_frame),
+   each within the session's limit [max] (Stream.Proofs.good); the socket hands
+   the stream over in reads of arbitrary lengths at non-decreasing times, with
+   ticks in between (Model.bev).  [StreamModel.abs] is the code: C07's model of
+   Session.Run/processBuffer composed with "one Notify per decoded message";
+   [Spec.sabs] is the text: message k is received by the read that delivers its
+   last byte, anything less (a header announcing a body that has not arrived, a
+   peer dribbling single bytes) is a fragment and not a message. *)
+
+(* the code's notion of "message received" is the text's, for every cutting of the stream *)
+Theorem C18_stream_refines : forall max fs bh,
+  (forall f, In f fs -> Stream.Proofs.good max f) -> max <= messageMaxLen + 65805 ->
+  abs max (stream_of fs) SM.init bh = sabs (sizes_of fs) 0 bh.
+Proof. intros max fs bh. exact (abs_sabs max fs bh). Qed.
+Print Assumptions C18_stream_refines.
+
+(* every byte-level trace of the model passes the byte-level judge (the one
+   bin/check evaluates on the traces observed on a real tcp connection) *)
+Theorem C18_stream_spec_all : forall c t0 max fs bh,
+  wf c -> (forall f, In f fs -> Stream.Proofs.good max f) -> max <= messageMaxLen + 65805 -> b_ordered t0 bh ->
+  stream_judge (P_of c t0) (sizes_of fs) (brun c t0 max (stream_of fs) bh) = 0%N.
+Proof. exact stream_spec_all. Qed.
+Print Assumptions C18_stream_spec_all.
+
+(* the monitor acts at a tick only if every message whose last byte has arrived is
+   at least a full period old ... *)
+Theorem C18_stream_only_if_idle : forall c t0 max fs bh1 bh2 tau ok,
+  wf c -> (forall f, In f fs -> Stream.Proofs.good max f) -> max <= messageMaxLen + 65805 ->
+  b_ordered t0 (bh1 ++ BTick tau ok :: bh2) ->
+  has_strike (tick_out c t0 max fs bh1 tau ok) = true ->
+  period c <> 0 /\ forall r, In r (t0 :: completion_times (sizes_of fs) 0 bh1) -> r + period c <= tau.
+Proof. exact stream_only_if_idle. Qed.
+Print Assumptions C18_stream_only_if_idle.
+
+(* ... and it does act at the first tick later than a full period after the latest
+   COMPLETE message (without keep-alive: closes), however many bytes of incomplete
+   messages arrived in the meantime: fragments never postpone the close *)
+Theorem C18_stream_first_tick : forall c t0 max fs bh1 bh2 tau ok,
+  wf c -> (forall f, In f fs -> Stream.Proofs.good max f) -> max <= messageMaxLen + 65805 ->
+  b_ordered t0 (bh1 ++ BTick tau ok :: bh2) ->
+  closed (state_before c t0 max fs bh1) = false -> period c <> 0 ->
+  (forall r, In r (t0 :: completion_times (sizes_of fs) 0 bh1) -> r + period c < tau) ->
+  has_strike (tick_out c t0 max fs bh1 tau ok) = true /\
+  (ka c = false -> has_close (tick_out c t0 max fs bh1 tau ok) = true).
+Proof. exact stream_first_tick. Qed.
+Print Assumptions C18_stream_first_tick.
+
+(* a read that completes no message: the monitor state is untouched (no stamp, no
+   reset of the failure count), and any proper prefix of a good frame is such a read *)
+Theorem C18_stream_fragment : forall c s t,
+  step c s (Frag t) = (s, []) /\
+  (forall sizes got n bh, complete sizes (Z.min (got + Z.of_nat n) (total sizes)) = complete sizes got ->
+     sabs sizes got (BRead t n :: bh) = [Frag t] :: sabs sizes (Z.min (got + Z.of_nat n) (total sizes)) bh) /\
+  (forall max f rest p q, Stream.Proofs.good max f -> max <= messageMaxLen + 65805 ->
+     p ++ q = Stream.Spec.encode_frame f ++ rest -> (length p < length (Stream.Spec.encode_frame f))%nat ->
+     SM.step max p = SM.Wait).
+Proof.
+  intros c s t. split; [exact (fragment_inert c s t)|]. split; [intros; apply fragment_read; assumption|].
+  intros max f rest p q. exact (proper_prefix_waits max f rest p q).
+Qed.
+Print Assumptions C18_stream_fragment.
+
+(* non-vacuity at byte level: period 1000, no keep-alive; a 2-byte message read at
+   100; then a 9-byte message (token 7, payload 5 bytes) arrives as 3 bytes at 600
+   and never completes: the tick at 1101 closes, the fragment did not count *)
+Example C18_stream_witness :
+  let c := {| period := 1000; maxr := 0; ka := false |} in
+  let fs := [Stream.Spec.MkFrame 69 [] [] []; Stream.Spec.MkFrame 1 [7] [] [1; 2; 3; 4; 5]] in
+  let bh := [BRead 100 2; BRead 600 3; BTick 1100 true; BTick 1101 true] in
+  wf c /\ (forall f, In f fs -> Stream.Proofs.good 1024 f) /\ b_ordered 0 bh /\
+  completion_times (sizes_of fs) 0 bh = [100] /\
+  brun c 0 1024 (stream_of fs) bh =
+    [(BRead 100 2, []); (BRead 600 3, []); (BTick 1100 true, []); (BTick 1101 true, [Close])].
+Proof.
+  cbv zeta. split; [unfold wf; cbn; split; [discriminate|reflexivity]|]. split.
+  - intros f [<-|[<-|[]]]; split; vm_compute; try reflexivity; discriminate.
+  - split; [cbn; repeat split; discriminate|]. split; vm_compute; reflexivity.
+Qed.
 
 (* non-vacuity: period 1 s, maxRetries 1; ping, other message, two more idle
    ticks: the message resets the count, so the close comes at the third tick *)
